@@ -35,6 +35,8 @@ class ClientEnv:
     def __init__(self, E):
         self.E = E
         codecs_model.install(E)
+        from pyvc import urlmodel
+        urlmodel.install(E)      # str.lower() lemmas (delimiter-preserving)
         self.install()
 
     def mk_future(self, ctx, fresh=False):
@@ -288,7 +290,7 @@ def add_targets(E, spec, pid, classes=(GP, TPc)):
                     return z3.BoolVal(False)
                 status = env.field_z(ctx, o, p, "status", z3.Int("self.status"))
                 meta = env.field_z(ctx, o, p, "meta", z3.String("self.meta"))
-                rs, rm, rb = ctx.getf(res, "status"), ctx.getf(res, "meta"), ctx.force(ctx.getf(res, "body"))
+                rs, rm, rb = ctx.force(ctx.getf(res, "status")), ctx.force(ctx.getf(res, "meta")), ctx.force(ctx.getf(res, "body"))
                 if not (isinstance(rs, VInt) and isinstance(rm, VStr)):
                     return z3.BoolVal(False)
                 parts += [rs.z == status, rs.z >= 10, rs.z <= 69, rm.z == meta, o[p.oid]["header_received"].z, z3.BoolVal(isinstance(ctx.force(exc), VNoneT))]
